@@ -779,6 +779,10 @@ pub struct PrintOpts {
     /// define the global list (`export GL = []`); false for later operations of a history,
     /// which keep using the list exported by the first one
     pub define_globals: bool,
+    /// exported `@test` functions (function index, argument), in definition order (histsim)
+    pub tests: Vec<(usize, i64)>,
+    /// exported `@main` calling f<k>(arg) (histsim)
+    pub main_call: Option<(usize, i64)>,
 }
 
 struct Printer {
@@ -1244,6 +1248,14 @@ pub fn print(p: &Program, opts: &PrintOpts) -> Printed {
     let header_len = pr.out.len();
     pr.locals(0);
     pr.block(&p.main.body, 0);
+    for (n, (k, a)) in opts.tests.iter().enumerate() {
+        pr.line(0, &format!("@test t{n} = ||"));
+        pr.line(1, &format!("f{k}({a})"));
+    }
+    if let Some((k, a)) = opts.main_call {
+        pr.line(0, "@main = ||");
+        pr.line(1, &format!("f{k}({a})"));
+    }
     pr.line(0, "dump(3000, i0, i1, i2, s0, l0, m0, GL)");
     let e = pr.expr(p.main.ret.as_ref().unwrap());
     pr.line(0, &e);
